@@ -4,6 +4,7 @@ CONSTANTS
     MaxAge = 100000000
     MaxDt = 2
     MaxBDt = 2
+    RestoreKeepsEpisodeStart = TRUE
     LeaveOKStartsDuration = TRUE
     BatchGaps = {0, 1}
     MaxBatch = 3
